@@ -421,39 +421,12 @@ def run(ctx, col: Collector):
         col.check(bool(j) and not any(isinstance(x, ast.Call) and norm(x.func) in ('sorted', 'reversed', 'set') for x in ast.walk(rd.node)), 'C02-compose', 'render_db:order',
                   'elements are rendered in collection order', 'render_db reorders the elements', node=rd.node, file=rd.file)
         # schema elision: on every path the text is "name" when the schema is the default one and "schema"."name" otherwise (abstract string evaluation per path)
-        from .. import strval
         gsym = idx.resolve('pydbml.renderer.dbml.default.table', 'get_full_name_for_dbml')
         gf = idx.funcs.get(f'{gsym.module}:{gsym.name}') if gsym is not None and gsym.kind == 'func' else None
         if gf is None:
             raise AnchorMissing('get_full_name_for_dbml')
-        mp = [a.arg for a in gf.node.args.args][0]
-        verdict = 'ok'
-        why = ''
-        npaths = 0
-        for lits_, sk, tests_, exprs_ in strval.skeleton_paths(gf.node, 1, set(), {}):
-            npaths += 1
-            shown = strval.show_labelled(sk)
-            is_default = any(l[0] == 'eq' and f'{mp}.schema' in l[1:] and any(str(x).startswith(("'", '"')) for x in l[1:]) for l in lits_)
-            not_default = any(l[0] == 'not' and isinstance(l[1], tuple) and l[1][0] == 'eq' and f'{mp}.schema' in l[1][1:] for l in lits_)
-            want_short = f'"◦⟨{mp}.name⟩"'
-            want_long = f'"◦⟨{mp}.schema⟩"."◦⟨{mp}.name⟩"'
-            if '?' in shown or (not is_default and not not_default):
-                if shown == want_long:
-                    continue        # always fully qualified on this path: reads back the same
-                verdict, why = ('unk', f'a path returns `{shown}` under {lits_}; cannot relate it to the schema test') if verdict == 'ok' else (verdict, why)
-            elif is_default and shown not in (want_short, want_long):
-                verdict, why = 'bad', f'for the default schema the helper returns `{shown}`, expected `{want_short}`'
-            elif not_default and shown != want_long:
-                verdict, why = 'bad', f'for a schema other than the default one the helper returns `{shown}`, expected `{want_long}`: the schema is lost or misplaced'
-        if npaths == 0:
-            verdict, why = 'unk', 'no returning path could be evaluated'
-        cons_ = 'get_full_name_for_dbml:schema-elision'
-        if verdict == 'ok':
-            col.ok('C02-compose', cons_, f'the schema is omitted exactly for the default schema ({npaths} paths)', node=gf.node, file=gf.file)
-        elif verdict == 'bad':
-            col.bad('C02-compose', cons_, f'get_full_name_for_dbml does not write "schema"."name" for every schema other than the default one: {why}', node=gf.node, file=gf.file)
-        else:
-            col.unk('C02-compose', cons_, f'get_full_name_for_dbml: {why}', node=gf.node, file=gf.file)
+        from .common import qualified_name_obligation
+        qualified_name_obligation(ctx, col, 'C02-compose', 'get_full_name_for_dbml:schema-elision', gf)
         # every name written by the helper is addressed through it (same qualified form for tables, references, groups)
     guarded(col, 'C02-compose', 'composition', compose)
 
